@@ -158,7 +158,8 @@ def st_pair(draw, two=False):
 
     target = draw(st.sampled_from([1, -1])) * draw(st.sampled_from([1.0, 0.3, 0.1, 1e-2, 1e-3, 1e-4])) * scale
     t = gr.solve_shift(f, target, -1e3 * scale, 1e3 * scale, iters=30)
-    return {"cone": spec, "r1": {"lo": (l1 + t * v).tolist(), "hi": (u1 + t * v).tolist()}, "r2": r2}
+    off = draw(gr.st_offset(m))
+    return {"cone": spec, "r1": gr.shift_region({"lo": (l1 + t * v).tolist(), "hi": (u1 + t * v).tolist()}, off), "r2": gr.shift_region(r2, off)}
 
 
 @st.composite
